@@ -8,6 +8,9 @@
 (*   Nak            CAP me NAK :...                                        *)
 (*   Plus           AUTHENTICATE +     - the server asks for the SASL data *)
 (*   Outcome(n)     903 / 904 / 908                                        *)
+(*   Reconnect      the connection ends (at any point of the negotiation)  *)
+(*                  and the client connects again: a new negotiation that  *)
+(*                  owes nothing to the previous connection                *)
 (* Every action records the line sent and what a conforming client writes  *)
 (* in response (expect; the union of the CAP REQ lines is given as a set   *)
 (* because a long request may be split), and View is what HasCapability /  *)
@@ -17,7 +20,8 @@
 EXTENDS Naturals, Sequences, FiniteSets, TLC
 
 CONSTANTS Universe,     \* capability names other than "sasl"
-          MaxSteps
+          MaxSteps,
+          MaxGen        \* connections per client
 
 AllCaps == Universe \cup {"sasl"}
 Mechs == {"none", "PLAIN", "EXTERNAL"}
@@ -28,9 +32,10 @@ VARIABLES
   adv,      \* everything the server has advertised
   held,     \* capabilities whose latest acknowledgement enabled them
   phase,    \* "ls" (CAP LS sent) | "req" | "authwait" | "authsent" | "done"
+  gen,      \* number of the current connection
   steps, lastOp
 
-state == <<wanted, mech, adv, held, phase, steps>>
+state == <<wanted, mech, adv, held, phase, gen, steps>>
 vars == <<state, lastOp>>
 
 Want == wanted \cup (IF mech = "none" THEN {} ELSE {"sasl"})
@@ -40,7 +45,7 @@ Join(S) == S   \* rendered by the driver (space separated, any order)
 
 Init ==
   /\ wanted \in SUBSET Universe /\ mech \in Mechs
-  /\ adv = {} /\ held = {} /\ phase = "ls" /\ steps = 0
+  /\ adv = {} /\ held = {} /\ phase = "ls" /\ steps = 0 /\ gen = 1
   /\ lastOp = [ev |-> "connect", line |-> "", expect |-> <<"CAP LS">>, req |-> {}]
 
 \* the server lists its capabilities: the client requests wanted /\ advertised, or ends at once
@@ -50,7 +55,7 @@ LS(S) ==
   /\ LET r == Want \cap (adv \cup S) IN
        IF r = {} THEN phase' = "done" /\ Op("ls", [verb |-> "LS", caps |-> S], <<"CAP END">>, {})
        ELSE phase' = "req" /\ Op("ls", [verb |-> "LS", caps |-> S], <<"CAP REQ">>, r)
-  /\ UNCHANGED <<wanted, mech, held>>
+  /\ UNCHANGED <<wanted, mech, held, gen>>
 
 \* an acknowledgement; entries are [c |-> cap, on |-> BOOLEAN] ("-cap" when on is FALSE)
 Ack(S) ==
@@ -60,29 +65,38 @@ Ack(S) ==
   /\ LET sasl == mech # "none" /\ [c |-> "sasl", on |-> TRUE] \in S IN
        IF sasl THEN phase' = "authwait" /\ Op("ack", [verb |-> "ACK", caps |-> S], <<"AUTHENTICATE " \o mech>>, {})
        ELSE phase' = "done" /\ Op("ack", [verb |-> "ACK", caps |-> S], <<"CAP END">>, {})
-  /\ UNCHANGED <<wanted, mech, adv>>
+  /\ UNCHANGED <<wanted, mech, adv, gen>>
 
 Nak ==
   /\ phase = "req" /\ Step
   /\ phase' = "done" /\ Op("nak", [verb |-> "NAK", caps |-> {}], <<"CAP END">>, {})
-  /\ UNCHANGED <<wanted, mech, adv, held>>
+  /\ UNCHANGED <<wanted, mech, adv, held, gen>>
 
 \* the server asks for the SASL data: only now is it sent, encoded as the mechanism prescribes
 Plus ==
   /\ phase = "authwait" /\ Step
   /\ phase' = "authsent" /\ Op("plus", [verb |-> "AUTHENTICATE", caps |-> {}], <<"AUTHENTICATE <" \o mech \o ">">>, {})
-  /\ UNCHANGED <<wanted, mech, adv, held>>
+  /\ UNCHANGED <<wanted, mech, adv, held, gen>>
 
 Outcome(n) ==
   /\ phase \in {"authwait", "authsent"} /\ Step
   /\ phase' = "done" /\ Op("outcome", [verb |-> n, caps |-> {}], <<"CAP END">>, {})
-  /\ UNCHANGED <<wanted, mech, adv, held>>
+  /\ UNCHANGED <<wanted, mech, adv, held, gen>>
+
+\* the connection ends and the client connects again: what the previous server advertised and
+\* acknowledged says nothing about this one
+Reconnect ==
+  /\ gen < MaxGen /\ Step
+  /\ gen' = gen + 1
+  /\ adv' = {} /\ held' = {} /\ phase' = "ls"
+  /\ Op("reconnect", [verb |-> "RECONNECT", caps |-> {}], <<"CAP LS">>, {})
+  /\ UNCHANGED <<wanted, mech>>
 
 AckSets == {S \in SUBSET {[c |-> c, on |-> b] : c \in AllCaps, b \in BOOLEAN} : S # {} /\ Cardinality(S) <= 2 /\ \A x, y \in S : x.c = y.c => x = y}
 Next ==
   \/ \E S \in SUBSET AllCaps : LS(S)
   \/ \E S \in AckSets : Ack(S)
-  \/ Nak \/ Plus
+  \/ Nak \/ Plus \/ Reconnect
   \/ \E n \in {"903", "904", "908"} : Outcome(n)
 Spec == Init /\ [][Next]_vars
 
